@@ -2,7 +2,8 @@ import MpVerif.C16.Explain
 import MpVerif.Gen.GslSkel
 import Std.Data.HashMap
 /-! Line driver for C16.
-`call <name> <n> <v|d|h> <digp> <dig> <raNaN> <intOk> <uintOk> | <err> <ret> <wd> <wh> <dnan> <hnan>`
+`call <name> <n> <v|d|h> <digp> <dig> <raNaN> <intOk> <uintOk> <ints> | <err> <ret> <wd> <wh> <dnan> <hnan>`
+(`<ints>`: the values (int)ra[i], comma separated, 0 where not representable; `e` when n = 0)
 ↦ `ok` if the generated skeleton of `<name>` explains the observation, `unexplained` otherwise. -/
 open MpVerif.C16 MpVerif.Gen.GslSkel
 
@@ -11,6 +12,9 @@ def table : Std.HashMap String Entry := registered.foldl (fun m e => m.insert e.
 def bitsOf (s : String) : Option (List Bool) :=
   if s == "e" then some [] else
   s.toList.mapM (fun c => if c == '1' then some true else if c == '0' then some false else none)
+
+def intsOf (s : String) : Option (List Int) :=
+  if s == "e" then some [] else (s.splitOn ",").mapM (·.toInt?)
 
 def errOf : String → Option (Option ErrK)
   | "none" => some none
@@ -29,17 +33,17 @@ def modeOf : String → Option Mode
 
 def answer (ws : List String) : String :=
   match ws with
-  | ["call", name, n, mode, digp, dig, ranan, iok, uok, "|", err, ret, wd, wh, dnan, hnan] =>
-    match table[name]?, n.toNat?, modeOf mode, bitsOf dig, bitsOf ranan, bitsOf iok, bitsOf uok, errOf err,
+  | ["call", name, n, mode, digp, dig, ranan, iok, uok, ints, "|", err, ret, wd, wh, dnan, hnan] =>
+    match table[name]?, n.toNat?, modeOf mode, bitsOf dig, bitsOf ranan, bitsOf iok, bitsOf uok, intsOf ints, errOf err,
           bitsOf wd, bitsOf wh, bitsOf dnan, bitsOf hnan with
-    | some e, some n, some m, some dig, some ranan, some iok, some uok, some err, some wd, some wh, some dnan, some hnan =>
+    | some e, some n, some m, some dig, some ranan, some iok, some uok, some ints, some err, some wd, some wh, some dnan, some hnan =>
       if n != e.nargs then "bad-op" else
       let a : Args := { n := n, raNaN := fun i => ranan.getD i false, intOk := fun i => iok.getD i false,
                         uintOk := fun i => uok.getD i false, digp := digp == "1", dig := fun i => dig.getD i false,
-                        d0 := fun _ => false, h0 := fun _ => false }
+                        d0 := fun _ => false, h0 := fun _ => false, raInt := fun i => ints.getD i 0 }
       let ob : Obs := { err := err, retNaN := ret == "n", wd := wd, wh := wh, dnan := dnan, hnan := hnan }
       if explained e.body a m ob then "ok" else "unexplained"
-    | _, _, _, _, _, _, _, _, _, _, _, _ => "bad-op"
+    | _, _, _, _, _, _, _, _, _, _, _, _, _ => "bad-op"
   | _ => "bad-op"
 
 partial def loop (h : IO.FS.Stream) (out : IO.FS.Stream) : IO Unit := do
